@@ -14,6 +14,21 @@ CHECKS = {
         text="TLC proves algorithm == documented rules (EquivRef), never-escapes and guard termination for every pair of hook tables within the stated bounds; thousands of table sets (curated + seeded random) are run through the same spec and replayed through unwrap_stackitem/elaborate_frame registrations on real frames, comparing frames, leaf, errors and extract_outermost with the spec's terminal state",
         note="bounded tables (quick: 2 frames/2 wrappers/1 leaf exhaustively, 3/3/1 by given tables); deterministic hooks; TLC and the JSON bridge are trusted",
         ref="3.1, 4 C10"),
+    "C05": dict(
+        technique="TLC on ExtractIter with raising hook-table entries; given-table replay with fault-free siblings; k-th-call fault injection on real scenarios with TLC trace validation of the faulty runs",
+        text="exhaustive over all tables with <= 2 raising entries on the model (never escapes, every fault recorded, hook-raising frame kept un-hidden, result == documented rules); thousands of faulty table sets replayed on the real hooks under 3.9-3.12 comparing the error list tag by tag; every hook call of a corpus of real scenarios made to raise in turn, injected exception located in the Stack tree, recorded traces accepted by ExtractIterTrace",
+        note="faults are Exception subclasses; corpus is finite (5 scenarios, 7 hook kinds, all k; pairs sampled); F13 known finding for one pair shape",
+        ref="3.1, 4 C05"),
+    "C03": dict(
+        technique="TLA+ chain space with the built-in unwrap rules (Chains.tla), TLC enumeration; every chain built for real and compared with spec, throw() path and line numbers; extraction traces validated against ExtractIterTrace",
+        text="all typed chains up to 3 (thorough 4) links over coroutine / generator-based coroutine / generator / async generator (anext, asend, async for, athrow, aclose) / __await__ adapters x terminators are enumerated by TLC, which also checks that the glue rule table yields the throw path; each is replayed on 3.9-3.12 and the H1 trace of each real extraction must be a behaviour of ExtractIter",
+        note="chain length bound; links share four code objects (frames are distinct objects); handlers are added to every link so tracebacks are complete on 3.9-3.11",
+        ref="3.7, 4 C03"),
+    "C16": dict(
+        technique="TLC on ExtractIter with generator-type wrappers (OriginContractX, OutermostIsFirst); origin contract evaluated on every real chain (suspended and running) via API and via the trace spec's verdict; extract_outermost vs extract on given tables",
+        text="origin contract and extract_outermost == first frame hold for all tables in the bound on the model (with the F5 excuse named), for every chain of the C03 space on 3.9-3.12 including running carriers, and for thousands of synthetic table sets",
+        note="F5 (inherited origin of frames inward of a running generator-type item) is a known finding, matched by an independent signature; threads/greenlets are covered by C07/C15 runs",
+        ref="3.1, 4 C16"),
 }
 
 NOT_YET = "check not built yet (work in progress; see DESIGN.md section 9)"
